@@ -111,10 +111,12 @@ Section Step.
   Proof.
     intros cp cp' w' ps H T Cl. unfold include_targets in H.
     destruct (parent cp) as [dir|] eqn:Ep; [|discriminate].
-    destruct (parse_pattern (path_string (canonicalize (join dir w')))) as [ts|] eqn:Et; [|discriminate].
-    assert (T1 : target_tokens cp w' = Some ts) by (unfold target_tokens; rewrite Ep; exact Et).
+    destruct (parse_pattern (path_string (canonicalize (join dir w')))) as [ts| |] eqn:Et; [|discriminate|discriminate].
+    assert (T1 : target_tokens cp w' = Some ts) by (unfold target_tokens; rewrite Ep, Et; reflexivity).
     rewrite T1 in T. unfold target_tokens in T. unfold include_targets.
-    destruct (parent cp') as [dir'|]; [|discriminate]. rewrite T.
+    destruct (parent cp') as [dir'|]; [|discriminate].
+    destruct (parse_pattern (path_string (canonicalize (join dir' w')))) as [ts0| |]; try discriminate.
+    injection T as T. subst ts0.
     rewrite (glob_keys2 ts (Cl ts T1)). exact H.
   Qed.
 
